@@ -18,6 +18,7 @@
 mod alphabet;
 mod dnssec;
 mod keying;
+mod layouts;
 
 use std::collections::{BTreeSet, HashSet};
 use std::sync::atomic::{AtomicU64, Ordering};
@@ -143,14 +144,20 @@ fn file_of(loc: &str) -> String {
 /// Execute one concrete message on `env` (whose state is `pre`) and judge it.
 pub fn step(w: &Worker, env: &Env, pre: &Pre, msg: &Msg, id: u16) -> StepOut {
     let bytes = vupd::signed_update(id, msg, &w.signer, vupd::NOW);
+    step_bytes(w, env, pre, &bytes, vupd::Protocol::Tcp)
+}
+
+/// Execute the signed request octets `bytes` (however they were produced) over `proto` and judge
+/// them; the reference reads the same octets.
+pub fn step_bytes(w: &Worker, env: &Env, pre: &Pre, bytes: &[u8], proto: vupd::Protocol) -> StepOut {
     let mut findings = vec![];
     let mut observations = vec![];
 
     // reference verdict from the raw bytes and the implementation's pre-state
-    let upd = ru::parse_update(&bytes).expect("reference parses the honest request");
+    let upd = ru::parse_update(bytes).expect("reference parses the honest request");
     let verdict = ru::process(&pre.zone, &upd);
 
-    let res = catch(|| w.rt.block_on(async { env.exchange(&bytes).await }));
+    let res = catch(|| w.rt.block_on(async { env.exchange_via(bytes, proto).await }));
     let post = snapshot(w, env, pre.dnssec.is_some());
     let changed = post != pre.snap;
     let rcode = match res {
@@ -341,7 +348,7 @@ struct Node {
     key: u64,
 }
 
-fn case_json(cfg_zone: &[Rr], history: &[Msg], msg: &Msg) -> Value {
+pub(crate) fn case_json(cfg_zone: &[Rr], history: &[Msg], msg: &Msg) -> Value {
     json!({
         "initial_zone": cfg_zone.iter().map(vupd::rr_json).collect::<Vec<_>>(),
         "history": history.iter().map(|m| m.to_json()).collect::<Vec<_>>(),
@@ -513,6 +520,16 @@ fn main() {
             let history: Vec<Msg> = case["history"].as_array().map(|a| a.iter().map(Msg::from_json).collect()).unwrap_or_default();
             let msg = Msg::from_json(&case["message"]);
             let dn = case["dnssec_enabled"].as_bool().unwrap_or(false);
+            if case["zone_section"].is_string() {
+                layouts::run_zone_sections(&w, "replay", &zone, l);
+                return;
+            }
+            if let Some(vn) = case["variant"].as_str() {
+                let vars: Vec<layouts::Variant> = layouts::variants().into_iter().filter(|v| v.name() == vn).collect();
+                let spec = MsgSpec { prereqs: msg.prereqs.iter().map(|r| alphabet::AtomSpec { rr: r.clone(), soa: None }).collect(), updates: msg.updates.iter().map(|r| alphabet::AtomSpec { rr: r.clone(), soa: None }).collect() };
+                layouts::run_node(&ctx, &w, "replay", &zone, &history, &[spec], &vars, 0, 1, l);
+                return;
+            }
             let (env, snap) = rebuild(&w, &zone, dn, &history);
             let pre = Pre::of(&w, &env, snap, dn);
             if dn && history.is_empty() {
@@ -585,7 +602,17 @@ fn main() {
          delta; only conforming successors are expanded. Oracle per transition: vref::update (RFC 2136 3.2/3.4 pseudocode, RFC 1982) on the \
          raw request bytes and the implementation's pre-state: rcode in the acceptable set, rejected => unchanged, accepted => zone equals an \
          acceptable reference zone, invariants (one SOA, apex NS, CNAME alone), serial strictly advanced iff content changed. Non-trivial = \
-         distinct (state, message) with an accepted zone-changing update or a rejection by a prerequisite that holds on the initial zone.",
+         distinct (state, message) with an accepted zone-changing update or a rejection by a prerequisite that holds on the initial zone. \
+         Audit round: atoms for the opaque-RDATA type NULL (empty and non-empty RDATA, prerequisite and update position) and for every query \
+         meta type (ANY, AXFR, IXFR, MAILB, MAILA) in every class arm of the prescan; two roots signed with NSEC3 (chain = RFC 5155 7.1 of the \
+         current content, vref::denial::nsec3_chain) and the kinds alphabet as a second step below the expanded signed states; VARIANT family \
+         (differential against the plain run of the same message on the same state, every state at depth 0, a slice at depth 1, thorough all of \
+         depth <= 1 and a slice of depth 2, M1-core + kinds + NULL/meta atoms + a slice of M2): the message HAND-ENCODED (vupd::raw, signed by \
+         vref::tsig) uncompressed / compressed against the zone name / upper case / both / with a glue record / with an OPT before the TSIG, \
+         the hickory-encoded message over UDP, and on a handler with a journal attached; ZONE-SECTION family (hand-encoded): ZTYPE in {A, NS, \
+         ANY, AXFR} must be FORMERR and change nothing (RFC 2136 3.1.1, Catalog::update); ZOCOUNT 0/2, ZCLASS CH/ANY/NONE, ZNAME inside / \
+         outside / above the zone are counted observations only (RFC 2136 3.1.2 NOTAUTH; the statement speaks of prerequisites, prescan and \
+         3.4.2 contents, not of section 3.1).",
     );
     ctx.assume("vref::update is the RFC 2136 3.2-3.4 / RFC 1982 reference; where prose and pseudocode disagree or precedence is not fixed it accepts every reading");
     ctx.assume("the only state update() reads is the record store (journal off, DNSSEC off): putting the saved store content back after a message equals rebuilding from the history (self-tested on a fixed slice of transitions)");
@@ -614,6 +641,7 @@ fn main() {
                 let bad = dnssec::check(&dnssec::view(&w.rt.block_on(env.save())), vupd::NOW);
                 let mut loaded = snap.clone();
                 loaded.rrs.retain(|r| r.rtype != dnssec::T_DNSKEY);
+                want.retain(|r| !dnssec::is_dnssec_type(r.rtype));
                 if loaded.content() != (Snap { rrs: want.clone(), empty_keys: vec![] }).content() {
                     ctx.machinery_failure(&format!("the signed initial zone {} does not load as written", cfg.name));
                 }
@@ -670,6 +698,12 @@ fn main() {
         for (ni, n) in frontier.iter().enumerate() {
             let cfg = &cfgs[n.cfg];
             if cfg.dnssec && depth >= d_dnssec {
+                // second step on a signed zone: every update-RR kind once more from every state
+                // one level below the expanded ones (NSEC / NSEC3 chain and serial state carried over)
+                if depth == d_dnssec {
+                    let n = alphas[A_KINDS].len();
+                    tasks.push(Task { node: ni, alpha: A_KINDS, lo: 0, hi: n, want_succ: false });
+                }
                 continue;
             }
             if !thorough && depth >= 2 && (n.cfg >= 1 || n.key % 2 == 1) && !cfg.serial_focus {
@@ -765,6 +799,46 @@ fn main() {
                 Ok(()) => l.outcome("axfr-agrees"),
                 Err(e) => l.violation("axfr-differs-from-records", &e, || case_json(&cfg.zone, &n.history, &Msg::default())),
             }
+        });
+    }
+
+    // audit round: hand-encoded layouts, UDP, journal attached (differential against the plain
+    // run), and zone sections RFC 2136 3.1.1 rejects
+    {
+        let vars = layouts::variants();
+        let msgs = layouts::messages(thorough);
+        ctx.set("variant_family_messages", json!(msgs.len()));
+        ctx.set("variant_family_variants", json!(vars.iter().map(|v| v.name()).collect::<Vec<_>>()));
+        let picked: Vec<&Node> = all_states
+            .iter()
+            .filter(|n| !cfgs[n.cfg].dnssec)
+            .filter(|n| match n.history.len() {
+                0 => true,
+                1 => thorough || n.key % 8 == 0,
+                2 => thorough && n.key % 16 == 0,
+                _ => false,
+            })
+            .collect();
+        ctx.set("variant_family_states", json!(picked.len()));
+        const VCHUNK: usize = 64;
+        let mut vtasks: Vec<(usize, usize, usize)> = vec![];
+        for (pi, _) in picked.iter().enumerate() {
+            let mut lo = 0;
+            while lo < msgs.len() {
+                vtasks.push((pi, lo, (lo + VCHUNK).min(msgs.len())));
+                lo += VCHUNK;
+            }
+        }
+        ctx.par_run_init(vtasks.len() as u64, 1, |_| Worker::new(), |i, l, w| {
+            let (pi, lo, hi) = vtasks[i as usize];
+            let n = picked[pi];
+            let cfg = &cfgs[n.cfg];
+            layouts::run_node(&ctx, w, &cfg.name, &cfg.zone, &n.history, &msgs, &vars, lo, hi, l);
+        });
+        let roots: Vec<&Config> = cfgs.iter().filter(|c| !c.dnssec && !c.serial_focus).collect();
+        ctx.par_run_init(roots.len() as u64, 1, |_| Worker::new(), |i, l, w| {
+            let c = roots[i as usize];
+            layouts::run_zone_sections(w, &c.name, &c.zone, l);
         });
     }
 
